@@ -397,6 +397,29 @@ Section WithH.
   End Fixed.
 End WithH.
 
+(* ------------------------------------------------------------------ content.FetchAll *)
+(* what a store's Fetch hands out (bytes.Reader / os.File): the bytes, then io.EOF *)
+Definition serve_script (bs : str) : list ev := match bs with [] => [] | _ => [Data bs] end.
+
+Section FetchAll.
+  Variable H : str -> str -> str.
+
+  (* FetchAll(ctx, fetcher, desc) = Fetch, then ReadAll of the served stream;
+     [fetched] = None: Fetch answered not found *)
+  Definition fetch_all (fetched : option str) (d : desc) : option rerr * str :=
+    match fetched with
+    | None => (Some ENotFound, [])
+    | Some c =>
+        let evs := serve_script c in
+        fst (read_all H false true (S (S (S (ev_weight evs)))) (mkBase evs None) (d_dg d) (d_sz d))
+    end.
+
+  Definition mem_fetch_all (m : mem) (d : desc) := fetch_all (mem_get m d) d.
+  Definition oci_fetch_all (s : oci) (d : desc) :=
+    if negb (valid_digest (d_dg d)) then (Some EBadDigest, []) else fetch_all (oci_get s (d_dg d)) d.
+  Definition file_fetch_all (s : fstore) (name : str) (d : desc) := fetch_all (file_fetch s name d) d.
+End FetchAll.
+
 (* ------------------------------------------------------------------ histories *)
 (* every state a store can reach from empty by any sequence of pushes (any
    descriptor, any reader script, any fuel), sequentially *)
@@ -586,9 +609,6 @@ End Histories.
    consumed prefix together with the push error (pr.CloseWithError). *)
 Section Proxy.
   Variable H : str -> str -> str.
-
-  (* what cas.Memory.Fetch hands out: a bytes.Reader *)
-  Definition serve_script (bs : str) : list ev := match bs with [] => [] | _ => [Data bs] end.
 
   Fixpoint rc_reads (comb : bool) (evs : list ev) (ks : list nat) : list rres :=
     match ks with
